@@ -138,6 +138,15 @@ def templates():
         ('segment-forward-label', ';\nsegment L\n;\nL:\n', True, None),
         ('segment-overlap', ';\n;\nsegment 0\n;\n', True, None),
         ('segment-overlap-partial', ';\n;\n;\nsegment 2*w\n;\n', True, None),
+        # every geometry of two overlapping segments (the later one: surrounds the earlier / is inside it / equals it / overlaps its head / its tail)
+        ('segment-overlap-later-surrounds', ';\nsegment 6*w\n;\nsegment 4*w\n;\n;\n;\n;\n;\n', True, None),
+        ('segment-overlap-later-surrounds-by-reserve', ';\nsegment 6*w\n;\nsegment 4*w\nreserve 10*w\n', True, None),
+        ('segment-overlap-later-surrounds-first', ';\nsegment 8*w\n;\nsegment 0\n;\n;\n;\n;\n;\n;\n', True, None),
+        ('segment-overlap-later-inside', ';\nsegment 4*w\n;\n;\n;\n;\nsegment 6*w\n;\n', True, None),
+        ('segment-overlap-later-equal', ';\nsegment 4*w\n;\n;\nsegment 4*w\n;\n;\n', True, None),
+        ('segment-overlap-later-head', ';\nsegment 6*w\n;\n;\nsegment 4*w\n;\n;\n', True, None),
+        ('segment-overlap-later-tail', ';\nsegment 4*w\n;\n;\nsegment 6*w\n;\n;\n', True, None),
+        ('segment-overlap-three', ';\nsegment 16*w\n;\nsegment 8*w\n;\nsegment 6*w\n;\n;\n;\n', True, None),
         ('segment-out-of-range', ';\nsegment 1<<w\n;\n', True, None),
         ('segment-negative', ';\nsegment 0-2*w\n;\n', True, None),
         ('reserve-unaligned', ';\nreserve 1\n', True, 'reserve'),
